@@ -496,22 +496,32 @@ func main() {
 		if !lib.LazyInit {
 			yqlib.InitExpressionParser()
 		}
-		reps := 4
+		// Free running (meant for the -race build). A lock taken inside the library (the logger's,
+		// for one) orders most accesses of two short evaluations by chance, so every job is run by
+		// several goroutines, several times, in several barrier-started rounds: the race detector
+		// has no false positives, the repetition only raises the chance that it sees a race.
+		reps, copies, iters := 4, 3, 8
 		for rep := 0; rep < reps; rep++ {
 			var wg sync.WaitGroup
 			start := make(chan struct{})
 			results := make([]jobResult, len(lib.Tasks))
 			for i, idx := range lib.Tasks {
-				wg.Add(1)
-				go func(i, idx int) {
-					defer wg.Done()
-					<-start
-					if lib.LazyInit {
-						_ = yqlib.NewAllAtOnceEvaluator()
-					}
-					o, e := runJob(&lib.Jobs[idx], nil)
-					results[i] = jobResult{Job: idx, Out: o, Err: e}
-				}(i, idx)
+				for c := 0; c < copies; c++ {
+					wg.Add(1)
+					go func(i, idx, c int) {
+						defer wg.Done()
+						<-start
+						if lib.LazyInit {
+							_ = yqlib.NewAllAtOnceEvaluator()
+						}
+						for it := 0; it < iters; it++ {
+							o, e := runJob(&lib.Jobs[idx], nil)
+							if c == 0 && it == 0 {
+								results[i] = jobResult{Job: idx, Out: o, Err: e}
+							}
+						}
+					}(i, idx, c)
+				}
 			}
 			close(start)
 			wg.Wait()
